@@ -1,8 +1,8 @@
 (* C08 — Pins and API records survive every encoding boundary; decoders never crash.
    Statements only; every proof is `exact <lemma of Proofs/C08_*.v>`.
    Quantification: every pin value / every decoded protobuf message (fields arbitrary or absent). *)
-From V Require Import Base.Common Base.C08_Str Model.C08_Codec Model.C08_Query Model.C08_Status
-  Proofs.C08_Codec Proofs.C08_Query Proofs.C08_Status.
+From V Require Import Base.Common Base.C08_Str Model.C08_Codec Model.C08_Query Model.C08_Status Model.C08_Equals
+  Proofs.C08_Codec Proofs.C08_Query Proofs.C08_Status Proofs.C08_Equals.
 From Coq Require Import Permutation.
 Open Scope string_scope.
 Open Scope Z_scope.
@@ -117,4 +117,34 @@ Print Assumptions pin_mode_names_roundtrip.
 Example status_filter_example :
   status_string st_table 20 = "pin_error,pinned" /\ status_from_string "pin_error,pinned" = 20%N /\
   status_string st_table 30 = "cluster_error,pin_error,unpin_error,error,pinned" /\ status_from_string (status_string st_table 30) = 30%N.
+Proof. vm_compute. repeat split. Qed.
+
+(* ---- the repository's own equality: PinOptions.Equals / Pin.Equals (after the S4 repair) ---- *)
+
+(* two well-formed option values that Equals reports equal agree on every field it is meant to compare: name, mode,
+   both factors, shard size, user allocations as a multiset, expiry, metadata as maps over the non-empty keys (a removed
+   key, an added key, a changed value are all detected), origins as a multiset; only PinUpdate is ignored *)
+Theorem opts_equal_detects_every_field a b : wf_eq_opts a = true -> wf_eq_opts b = true ->
+  opts_equal a b = true -> opts_same a b.
+Proof. exact (opts_equal_detects_l a b). Qed.
+Print Assumptions opts_equal_detects_every_field.
+
+Theorem pin_equals_detects_every_field p q : wf_eq_pin p = true -> wf_eq_pin q = true ->
+  pin_equals false p q = true -> pin_same p q.
+Proof. exact (pin_equals_detects_l p q). Qed.
+Print Assumptions pin_equals_detects_every_field.
+
+Theorem equals_is_equivalence_on_wf :
+  (forall p, wf_eq_pin p = true -> pin_equals false p p = true) /\
+  (forall p q, wf_eq_pin p = true -> wf_eq_pin q = true -> pin_equals false p q = true -> pin_equals false q p = true) /\
+  (forall p q r, wf_eq_pin p = true -> wf_eq_pin q = true -> wf_eq_pin r = true ->
+     pin_equals false p q = true -> pin_equals false q r = true -> pin_equals false p r = true).
+Proof. exact pin_equals_equiv_l. Qed.
+Print Assumptions equals_is_equivalence_on_wf.
+
+(* the S4 input: the same options with one metadata key removed are no longer reported equal *)
+Example removed_metadata_key_detected :
+  let a := mk_opts 1 2 "n" 0 0 [] None [("k", "v"); ("k2", "v2")] None [] in
+  let b := mk_opts 1 2 "n" 0 0 [] None [("k", "v")] None [] in
+  wf_eq_opts a = true /\ wf_eq_opts b = true /\ opts_equal a b = false /\ opts_equal b a = false /\ opts_equal a a = true.
 Proof. vm_compute. repeat split. Qed.
